@@ -75,6 +75,9 @@ def make_xf(extras, rot, allow_structural=True):
                 if s == 'DerefMut' and t.variants[0].fields[0].ty.startswith('&'):
                     continue
             add.append(s)
+        if 'Debug' in add and 'Debug' in t.extra_attrs:
+            # the request's own `#[derive(.., Debug)]` gives way to the educed bystander
+            t.extra_attrs = t.extra_attrs.replace(', Debug', '').replace('Debug, ', '').replace('#[derive(Debug)]\n', '')
         for s in add:
             p = {}
             if s == 'Debug':
@@ -161,15 +164,17 @@ def templates():
             return p_c06.emit(modname, cfgid, copy.deepcopy(spc), xf=xf, modes=('compact',), sp=sp)
         T.append((f'Debug:{D.spec_id(spc)}', ['Debug'], ['Clone', 'Copy', 'PartialEq', 'Hash', 'PartialOrd', 'Default'], mk))
 
-    for sh, cp in [(('struct', [('named', ['m', 'b', 'u'])]), False), (('enum', [('tuple', ['b', 'm']), ('named', ['u']), ('unit', [])]), False), (('enum', [('tuple', ['l', 'k']), ('named', ['u', 'l'])]), True)]:
+    for sh, cp in [(('struct', [('named', ['m', 'b', 'u'])]), False), (('enum', [('tuple', ['b', 'm']), ('named', ['u']), ('unit', [])]), False), (('enum', [('tuple', ['l', 'k']), ('named', ['u', 'l'])]), True),
+                   # Copy without any method: the bitwise shortcut (clone is `*self`, clone_from is the default one)
+                   (('enum', [('tuple', ['l', 'u']), ('named', ['u']), ('unit', [])]), True), (('struct', [('named', ['u', 'l'])]), True)]:
         def mk(modname, cfgid, xf, sp=None, sh=sh, cp=cp):
             return p_c07.emit(modname, cfgid, sh, cp, xf=xf, sp=sp)
-        T.append((f'Clone:{S.shape_id(sh)}/copy={int(cp)}', ['Clone', 'Copy', 'PartialEq', 'Debug'], ['Hash', 'Eq', 'PartialOrd', 'Default', 'Deref', 'DerefMut', 'Into'], mk))
+        T.append((f'Clone:{S.shape_id(sh)}/copy={int(cp)}', ['Clone', 'Copy', 'PartialEq'], ['Debug', 'Hash', 'Eq', 'PartialOrd', 'Default', 'Deref', 'DerefMut', 'Into'], mk))
 
     for (kind, vs, marked, te, new) in [('struct', [('named', ['e', 'd', 'e'])], 0, False, True), ('enum', [('unit', []), ('tuple', ['e', 'd']), ('named', ['d'])], 1, False, False), ('struct', [('tuple', ['d', 'e'])], 0, True, False)]:
         def mk(modname, cfgid, xf, sp=None, kind=kind, vs=vs, marked=marked, te=te, new=new):
             return p_c08.emit(modname, cfgid, kind, vs, marked, te, new, xf=xf, sp=sp)
-        T.append((f'Default:{p_c08.vid(kind, vs, marked, te, new, False)}', ['Default', 'PartialEq', 'Debug'], ['Clone', 'Copy', 'Eq', 'Hash', 'PartialOrd', 'Deref', 'DerefMut', 'Into'], mk))
+        T.append((f'Default:{p_c08.vid(kind, vs, marked, te, new, False)}', ['Default', 'PartialEq'], ['Debug', 'Clone', 'Copy', 'Eq', 'Hash', 'PartialOrd', 'Deref', 'DerefMut', 'Into'], mk))
 
     specs9 = p_c09.variant_specs(True)
     for idx in (5, 40, 77):
